@@ -297,6 +297,17 @@ type conj struct {
 
 // splitConj splits a goal that is a top-level conjunction (after predicate expansion) into separately named goals.
 func splitConj(goal Term, e Expr, env *Env) []conj {
+	// P ==> (A && B && C)  is split into  P ==> A,  P ==> B,  P ==> C
+	if strings.HasPrefix(goal.S, "(=> ") {
+		args := ctorArgs(goal, "=>")
+		if len(args) == 2 && strings.HasPrefix(args[1], "(and ") {
+			var out []conj
+			for i, p := range topConjuncts(Term{args[1], SBool}) {
+				out = append(out, conj{Term{"(=> " + args[0] + " " + p.S + ")", SBool}, fmt.Sprintf(".c%d", i+1)})
+			}
+			return out
+		}
+	}
 	parts := topConjuncts(goal)
 	if len(parts) <= 1 {
 		return []conj{{goal, ""}}
